@@ -202,6 +202,8 @@ pub fn blocks(thorough: bool) -> Vec<Block> {
     } else {
         b.push(Block::new(Universe::new("U_adv(A_cons)", A_CONS, 1, 4, false), vec![Cfg::new(0), Cfg::new(I)], "{}, i"));
         b.push(Block::new(Universe::new("U_abc3{a,b,c}", &["a", "b", "c"], 3, 4, false), vec![Cfg::new(0), Cfg::new(R)], "{}, r"));
+        b.push(Block::new(Universe::new("U_abc3{a,b,c}", &["a", "b", "c"], 3, 5, false), vec![Cfg::new(0)], "{}"));
+        b.push(Block::new(Universe::new("U_ab4{a,b}", &["a", "b"], 4, 5, false), vec![Cfg::new(0), Cfg::new(R)], "{}, r"));
         b.push(Block::new(u_prefix_suffix(), lattice_all(0, CLASS_BITS), "all 64 class subsets"));
         b.push(Block::new(Universe::new("U_adv(A_gcm)", A_GCM, 3, 2, false), vec![Cfg::new(0), Cfg::new(R), Cfg::new(NW)], "{}, r, W"));
         b.push(Block::new(Universe::new("U_ab3{a,b}", &["a", "b"], 3, 0, false), five.clone(), "{}, r, d+w, r+d, i"));
